@@ -190,6 +190,17 @@ CLAIMED["C14"] = dict(
          "quiescence'. The solver prunes nothing in the schedule dimension (stated in DESIGN 2.4). Bounds: k<=2 callers (quick), "
          "preemption budgets as listed in the evidence; outside: same Hop-by-Hop twice (C15), bytecode-level preemption.")
 
+CLAIMED["C07"] = dict(
+    level="model_checking", technique=E1, design="6/C07",
+    text="Sequences of 1-3 base requests (CER, DWR, DPR) are placed back-to-back in the inbound queue of a live association on a "
+         "stand-in transport - optionally with application traffic in between, behind an outbound backlog that exceeds the send "
+         "buffer, or across a restart of the same node object - with every Hop-by-Hop and End-to-End identifier a 32-bit solver "
+         "variable; the real state classes are ticked, and the bytes handed to the transport are decoded with the reference "
+         "decoder: the i-th answer has the i-th request's command code, R clear, its identifiers, the local origin and a "
+         "Result-Code, and at most one inbound message is consumed per tick.",
+    note="Trusted: CrossHair, z3, stand-in transport (transport thread body runs between ticks / while the state machine waits), "
+         "reference decoder. Bounds: sequences <= 3; SEND_BUFFER_MAXIMUM_SIZE patched to 100 in the backlog queries.")
+
 PENDING_REASON = "check not built yet in this session (planned in DESIGN.md section 6); no claim is made"
 NOT_APPLICABLE = {}
 
